@@ -304,6 +304,11 @@ def run(ctx):
         step = False
         if ok and cur[0] == 'var':
             for dbb, didx, e in R.var_defs(cur[1]):
+                # the step may sit in a helper returning Option (`cursor = self.successor(cursor, label)?`): the value that continues is its payload
+                while e[0] == 'agg' and isinstance(e[1], tuple) and e[1][1] == 'Option' and e[1][2] == 'Some' and len(e[2]) == 1:
+                    e = e[2][0]
+                while is_call(e, 'Option::expect', 'Option::unwrap', 'Result::expect', 'Result::unwrap') and e[2]:
+                    e = e[2][0]
                 if is_call(e, 'Tree::tree_node'):
                     idx = e[2][1]
                     if idx[0] == 'index' and idx[1] == ('field', cur, 'children') and is_call(idx[2], 'AffTree::evaluate_decision') and idx[2][3] == ev[0][0]:
